@@ -1,7 +1,7 @@
 """C17 - no request is evaluated before the client's identity is established."""
 import ast
 
-from ..astutil import (U, dotted, get_class, get_method, get_function, walk_local, is_self_attr, call_name, short,
+from ..astutil import (walk_flat, U, dotted, get_class, get_method, get_function, walk_local, is_self_attr, call_name, short,
                        enum_member, params)
 from ..cfg import CFG, calls_at
 from ..dataflow import ReachingDefs
@@ -147,7 +147,7 @@ def run(ctx):
     ctx.need(len(prs) >= 1, 'anchor vanished: no self._engine.process_request call in _handle_message_loop')
     ctx.count('cfg_nodes_message_loop', len(g.nodes), 40)
     ctx.count('process_request_calls', len(prs), 1)
-    other = [n for n in ast.walk(st) if isinstance(n, ast.Attribute) and n.attr in ('process_request', '_process_batch', '_process_operation')
+    other = [n for n in walk_flat(st, loop) if isinstance(n, ast.Attribute) and n.attr in ('process_request', '_process_batch', '_process_operation')
              and not any(n is c.func for _, c in prs)]
     ctx.check(not other, 'C17.R1', 'KmipSession|extra-engine-processing-use', '%s KmipSession' % SESSION, 'engine request processing is used only through direct self._engine.process_request calls',
               'request processing is reachable from another site: %s' % [(o.lineno, U(o)) for o in other])
